@@ -59,7 +59,7 @@ func TestC09Rapid(t *testing.T) {
 			return m
 		}
 		repeatSteps(rt, 40, func(i int) {
-			op := drawWeighted(rt, "op", []weighted{{"deposit", 6}, {"withdraw", 7}, {"transfer", 2}, {"reannounce", 2}, {"discarded", 2}, {"stale-announce", 2}, {"bridge-info", 1}})
+			op := drawWeighted(rt, "op", []weighted{{"deposit", 6}, {"withdraw", 7}, {"transfer", 2}, {"reannounce", 2}, {"discarded", 2}, {"stale-announce", 2}, {"bridge-info", 1}, {"restart", 1}})
 			switch op {
 			case "deposit", "reannounce":
 				var msg *opchildtypes.MsgFinalizeTokenDeposit
@@ -186,6 +186,12 @@ func TestC09Rapid(t *testing.T) {
 				_ = supplyBefore
 				tc.logf("%s(%s to=%s base=%s) -> refunds=%d", op, msg.Amount, short(msg.To), msg.BaseDenom, len(ws))
 				shape += op[:1]
+			case "restart":
+				// the L2 is exported and a new chain started from that genesis (through JSON): supply, mappings and the
+				// withdrawal counter go on where they were
+				tc.restartL2()
+				l2 = tc.l2
+				c.Class("genesis-round-trip-inside-history")
 			case "bridge-info":
 				// the executor registers the bridge info (for the first time, if the L2 started without it)
 				if !tc.infoSet {
